@@ -207,7 +207,7 @@ int worker_main(int argc, char **argv, const Harness &h) {
     std::string err;
     if (!plan_from_text(ss.str(), &p, &err)) harness_error("bad plan: %s", err.c_str());
     RunResult r = h.run(p, log);
-    if (log) fputs(r.sample.c_str(), stdout);
+    if (log) { fputs(r.sample.c_str(), stdout); if (r.sample.empty() || r.sample.back() != '\n') fputc('\n', stdout); }
     print_result(p.seed, r);
     return r.ok ? 0 : 1;
   }
@@ -220,7 +220,7 @@ int worker_main(int argc, char **argv, const Harness &h) {
   if (have_seed) {
     Plan p = h.gen(prop, seed, thorough);
     RunResult r = h.run(p, log);
-    if (log) fputs(r.sample.c_str(), stdout);
+    if (log) { fputs(r.sample.c_str(), stdout); if (r.sample.empty() || r.sample.back() != '\n') fputc('\n', stdout); }
     print_result(seed, r);
     return r.ok ? 0 : 1;
   }
